@@ -10,7 +10,7 @@
    final division rounds). *)
 From Coq Require Import ZArith Reals.
 From Flocq Require Import Core BinarySingleNaN.
-From Tetl Require Import Lib.Base C12.Model C12.Spec C12.ProofsCast C12.ProofsAlgebra C12.FModel C12.FProofs.
+From Tetl Require Import Lib.Base C12.Model C12.Spec C12.ProofsCast C12.ProofsAlgebra C12.FModel C12.FProofs C12.FProofs2 C12.FProofs3 C12.FProofs4.
 Local Open Scope Z_scope.
 
 (* duration_cast<duration<double, n2/d2>>(duration<Int, n1/d1>{c}) and the converting constructor
@@ -26,7 +26,6 @@ Proof.
   - apply fcast_m_spec; assumption.
   - apply fconv_m_spec; assumption.
 Qed.
-Print Assumptions C12_float_cast_correctly_rounded.
 
 (* hence exact whenever the exact result is a whole number (of magnitude <= 2^53): the value of
    the integer duration_cast (which is then exact too, C12_conversion_laws) *)
@@ -47,7 +46,71 @@ Proof.
   rewrite rnd_exact_integer in R, R' by assumption.
   split; [exists r|exists r']; repeat split; assumption.
 Qed.
-Print Assumptions C12_float_cast_exact_on_integers.
+
+(* for EVERY int64 count and every representable conversion factor (no 2^53 bound) the result is a
+   finite double - no overflow, no NaN - namely the C++ expression with each conversion and
+   operation correctly rounded: rnd (rnd (rnd c * rnd num) / rnd den) *)
+Theorem C12_float_cast_always_finite : forall w1 n1 d1 w2 n2 d2 c,
+  period_ok n1 d1 = true -> period_ok n2 d2 = true ->
+  factor_num n1 d1 n2 d2 <= max64 -> factor_den n1 d1 n2 d2 <= max64 -> fits 64 c = true ->
+  let nested := rnd64 (rnd64 (rnd64 (IZR c) * rnd64 (IZR (factor_num n1 d1 n2 d2)))
+                       / rnd64 (IZR (factor_den n1 d1 n2 d2))) in
+  (exists r, fcast_m (Dur w1 n1 d1) (Dur w2 n2 d2) c = Val r /\ is_finite r = true /\ B2R r = nested)
+  /\ (exists r, fconv_m (Dur w1 n1 d1) (Dur w2 n2 d2) c = Val r /\ is_finite r = true /\ B2R r = nested).
+Proof.
+  intros w1 n1 d1 w2 n2 d2 c Hp1 Hp2 Hn Hd Hc. cbv zeta. split.
+  - apply fcast_m_any; assumption.
+  - apply fconv_m_any; assumption.
+Qed.
+
+(* floating-point SOURCE holding a whole number c: duration_cast<duration<int64_t, n2/d2>>
+   (duration<double, n1/d1>{c}) is the exact truncation, although the double quotient is rounded
+   before it is truncated: for |c * numerator| < 2^53 the rounding error is smaller than the
+   distance to the next integer *)
+Theorem C12_float_source_cast_exact : forall w1 n1 d1 w2 n2 d2 c,
+  period_ok n1 d1 = true -> period_ok n2 d2 = true -> fbounds n1 d1 n2 d2 c ->
+  Z.abs (c * factor_num n1 d1 n2 d2) < two53 -> fits 64 (cast_spec n1 d1 n2 d2 c) = true ->
+  di_cast_m (Dur w1 n1 d1) (Dur w2 n2 d2) (d_of_Z c) = Val (cast_spec n1 d1 n2 d2 c).
+Proof. exact di_cast_m_spec. Qed.
+
+(* ... and so are floor, ceil and round (ties to even) to an int64 duration: the comparisons and
+   differences they form in double on the common type are exact ([fboth_ok]: the common period
+   exists and both counts, converted to it, stay within 2^53) *)
+Theorem C12_float_source_rounding_exact : forall w1 n1 d1 w2 n2 d2 c,
+  period_ok n1 d1 = true -> period_ok n2 d2 = true -> fbounds n1 d1 n2 d2 c ->
+  Z.abs (c * factor_num n1 d1 n2 d2) < two53 -> fits 64 (cast_spec n1 d1 n2 d2 c) = true ->
+  fboth_ok n1 d1 n2 d2 c (cast_spec n1 d1 n2 d2 c) ->
+  let a := Dur w1 n1 d1 in let b := Dur w2 n2 d2 in let q := floor_spec n1 d1 n2 d2 c in
+  (fits 64 q = true -> di_floor_m a b (d_of_Z c) = Val q)
+  /\ (fits 64 (ceil_spec n1 d1 n2 d2 c) = true -> di_ceil_m a b (d_of_Z c) = Val (ceil_spec n1 d1 n2 d2 c))
+  /\ (fits 64 q = true -> fits 64 (q + 1) = true -> fboth_ok n1 d1 n2 d2 c q -> fboth_ok n1 d1 n2 d2 c (q + 1) ->
+      Z.abs (minus_spec n1 d1 n2 d2 c q) <= two53 -> Z.abs (minus_spec n2 d2 n1 d1 (q + 1) c) <= two53 ->
+      di_round_m a b (d_of_Z c) = Val (round_spec n1 d1 n2 d2 c)).
+Proof.
+  intros w1 n1 d1 w2 n2 d2 c Hp1 Hp2 Hb Hs Hf Hc. cbv zeta. split; [|split].
+  - apply di_floor_m_spec; assumption.
+  - apply di_ceil_m_spec; assumption.
+  - intros. apply di_round_m_spec; assumption.
+Qed.
+
+(* + - < == on two double durations holding whole numbers: exact *)
+Theorem C12_float_source_arith_exact : forall w1 n1 d1 w2 n2 d2 c1 c2,
+  period_ok n1 d1 = true -> period_ok n2 d2 = true -> fboth_ok n1 d1 n2 d2 c1 c2 ->
+  let a := Dur w1 n1 d1 in let b := Dur w2 n2 d2 in
+  (Z.abs (plus_spec n1 d1 n2 d2 c1 c2) <= two53 ->
+     exists r, dd_plus_m a b (d_of_Z c1) (d_of_Z c2) = Val r /\ is_finite r = true
+               /\ B2R r = IZR (plus_spec n1 d1 n2 d2 c1 c2))
+  /\ (Z.abs (minus_spec n1 d1 n2 d2 c1 c2) <= two53 ->
+     exists r, dd_minus_m a b (d_of_Z c1) (d_of_Z c2) = Val r /\ is_finite r = true
+               /\ B2R r = IZR (minus_spec n1 d1 n2 d2 c1 c2))
+  /\ dd_lt_m a b (d_of_Z c1) (d_of_Z c2) = Val (lt_spec n1 d1 n2 d2 c1 c2)
+  /\ dd_eq_m a b (d_of_Z c1) (d_of_Z c2) = Val (eq_spec n1 d1 n2 d2 c1 c2).
+Proof.
+  intros w1 n1 d1 w2 n2 d2 c1 c2 Hp1 Hp2 Hb. cbv zeta.
+  split; [intros H; apply dd_plus_exact; assumption|].
+  split; [intros H; apply dd_minus_exact; assumption|].
+  apply dd_cmp_exact; assumption.
+Qed.
 
 (* the computable specification used by the correspondence run (one correctly rounded division of
    the exactly represented numerator and denominator) is that once-rounded rational *)
@@ -56,7 +119,16 @@ Theorem C12_float_spec_is_rounded_rational : forall n1 d1 n2 d2 c,
   B2R (fcast_spec n1 d1 n2 d2 c) = rnd64 (IZR (c * n1 * d2) / IZR (d1 * n2))
   /\ is_finite (fcast_spec n1 d1 n2 d2 c) = true.
 Proof. exact fcast_spec_correct. Qed.
-Print Assumptions C12_float_spec_is_rounded_rational.
+
+(* Print Assumptions on the two groups (conjunctions) of the theorems above: every theorem of this
+   file is a member of exactly one group; the axioms printed are those of Coq's classical reals. *)
+Definition C12_group_float_target :=
+  (conj C12_float_cast_correctly_rounded (conj C12_float_cast_exact_on_integers (conj C12_float_spec_is_rounded_rational C12_float_cast_always_finite))).
+Print Assumptions C12_group_float_target.
+
+Definition C12_group_float_source :=
+  (conj C12_float_source_cast_exact (conj C12_float_source_rounding_exact C12_float_source_arith_exact)).
+Print Assumptions C12_group_float_source.
 
 (* non-vacuity: 1500 ms -> 1.5 s; 90 min -> 1.5 h; -2^31 ticks of 1001/30000 s in thirds of a second *)
 Definition bits_of (o : out b64) : Z := match o with Val r => enc64 r | _ => -1 end.
@@ -68,3 +140,12 @@ Example C12_float_nonvacuous :
   /\ bits_of (fcast_m (Dur 64 1001 30000) (Dur 64 1 3) (-2147483648))
      = enc64 (fcast_spec 1001 30000 1 3 (-2147483648)).
 Proof. unfold fbounds. vm_compute. repeat split; intros; discriminate. Qed.
+
+(* the hypotheses of the float-source theorems are met by 2500 ms -> s (a tie: floor 2, round 2) *)
+Definition zof (o : out Z) : Z := match o with Val z => z | _ => -1 end.
+Example C12_float_source_nonvacuous :
+  fbounds 1 1000 1 1 2500 /\ fboth_ok 1 1000 1 1 2500 2 /\ fboth_ok 1 1000 1 1 2500 3
+  /\ zof (di_round_m (Dur 64 1 1000) (Dur 64 1 1) (d_of_Z 2500)) = 2
+  /\ zof (di_round_m (Dur 64 1 1000) (Dur 64 1 1) (d_of_Z 3500)) = 4
+  /\ zof (di_floor_m (Dur 64 1 1000) (Dur 64 1 1) (d_of_Z (-2500))) = -3.
+Proof. unfold fbounds, fboth_ok. vm_compute. repeat split; intros; discriminate. Qed.
